@@ -708,7 +708,7 @@ pub fn c04_run(cfg: &RunCfg) -> CheckReport {
     );
     rep.assume("oracle: byte-wise concatenation and index discipline; the tokenizers themselves are C06's business");
     rep.assume("besides &str and &[u8], the line and char constructors are also called with String, Cow<str> (owned / borrowed), Vec<u8> and Cow<[u8]> arguments");
-    rep.assume("consumption modes (every iterator also consumed through nth/skip/step_by/take-then-rest/fold/count/last/peekable/find/zip/chain, size_hint a valid bound at every position): iter_all_changes and iter_changes of the first two and the last op; quick tier on text pairs of up to 5 bytes in total, thorough tier on every pair with at most 10 changes");
+    rep.assume("consumption modes (every iterator also consumed through nth/skip/step_by/take-then-rest/fold/count/last/peekable/find/zip/chain, size_hint a valid bound at every position): iter_all_changes and iter_changes of the first two and the last op; quick tier on text pairs of up to 5 bytes in total, thorough tier up to 8 bytes");
     run_pairs(cfg, &mut rep, c04_pair);
     rep
 }
@@ -789,7 +789,7 @@ pub fn c17_run(cfg: &RunCfg) -> CheckReport {
     );
     rep.assume("pointer identity is checked on the byte pointers of the returned slices against the original text buffers");
     rep.assume("valid UTF-8 pairs are also remapped (Myers) as a caller-side DiffableStr whose len() and slice() count characters, not bytes");
-    rep.assume("consumption modes: DiffOp::iter_slices and TextDiffRemapper::iter_slices of the first two and the last op of every diff; quick tier on text pairs of up to 5 bytes in total, thorough tier on every pair");
+    rep.assume("consumption modes: DiffOp::iter_slices and TextDiffRemapper::iter_slices of the first two and the last op of every diff; quick tier on text pairs of up to 5 bytes in total, thorough tier 3 bytes more");
     run_pairs(cfg, &mut rep, c17_pair);
     if cfg.tier == Tier::Thorough && !rep.has_violation() {
         let avail = mem_available_gib();
